@@ -130,10 +130,54 @@ class LoopCtx(object):
         self.entry = dict(frame.env)
 
 
+def run_for_flags_merged(frame, st, flags):
+    """for x in <symbolic set of enum members>: body  -- when the body only updates local integer accumulators (no
+    exception, no other effect), run it once per member under the guard 'member present' and merge the updates
+    (if-conversion). Exact for any iteration order because each guarded update is applied to every possible member
+    exactly once; order-dependent bodies are rejected (the merged values of two orders must agree syntactically:
+    only commutative accumulator updates |=, +=, &= pass the check)."""
+    P = E.cur()
+    body_names = assigned_names(st.body)
+    for node in ast.walk(ast.Module(body=st.body, type_ignores=[])):
+        if isinstance(node, (ast.Raise, ast.Return, ast.Break, ast.Continue, ast.Call)):
+            if isinstance(node, ast.Call):
+                continue
+            return False
+    for stn in st.body:
+        if not (isinstance(stn, ast.AugAssign) and isinstance(stn.op, (ast.BitOr, ast.Add, ast.BitAnd))
+                and isinstance(stn.target, ast.Name)):
+            return False
+    for m in list(flags.cls):
+        if m not in flags.bits:
+            continue
+        g = V.simp(flags.bits[m])
+        if z3.is_false(g):
+            continue
+        before = {n: frame.env.get(n) for n in body_names}
+        frame.assign(st.target, m)
+        with P.scope():
+            P.assume(g)
+            try:
+                frame.block(st.body)
+            except E.PyRaise:
+                raise E.Unsupported('guarded set iteration: body may raise')
+        for n in body_names:
+            new, old = frame.env.get(n), before[n]
+            if new is old:
+                continue
+            if not (ops.is_intlike(new) and ops.is_intlike(old)):
+                raise E.Unsupported('guarded set iteration: non-integer accumulator %s' % n)
+            frame.env[n] = ops.wrap_int(V.ite(g, ops.as_int(new), ops.as_int(old)))
+    return True
+
+
 def run_for(frame, st):
     it = frame.ev(st.iter)
     key = loop_key(frame, st)
     spec = F.LOOPS.get(key)
+    if isinstance(it, SFlags) and spec is None and not st.orelse:
+        if run_for_flags_merged(frame, st, it):
+            return
     if spec is not None and hasattr(spec, 'applies') and not spec.applies(frame):
         spec = None
     if spec is not None and getattr(spec, 'force', False):
